@@ -506,6 +506,9 @@ func runProxyMode(run *xferRun) {
 	if c.CloseAtMs > 0 {
 		cfg.ShutdownTimeout = 10 * time.Minute // the drain outlasts every transfer
 	}
+	if c.ProxyProto != "" {
+		cfg.ProxyProtocolConfig = &forwarder.ProxyProtocolConfig{ReadHeaderTimeout: 5 * time.Second} // --proxy-protocol-listener
+	}
 	p, err := forwarder.NewHTTPProxy(cfg, nil, nil, nil, fwdlog.NopLogger, nil)
 	if err != nil {
 		run.setFatal("NewHTTPProxy: " + err.Error())
@@ -528,6 +531,21 @@ func runProxyMode(run *xferRun) {
 		return
 	}
 	paddr := addrs[0]
+	var ppSeq atomic.Int64
+	// dialProxy: a client connection to the proxy; behind a PROXY-protocol listener it announces itself first
+	dialProxy := func(ctx context.Context) (net.Conn, error) {
+		conn, err := (&net.Dialer{Timeout: 5 * time.Second}).DialContext(ctx, "tcp", paddr)
+		if err != nil {
+			return nil, err
+		}
+		if h := proxyHeader(c.ProxyProto, int(ppSeq.Add(1))); len(h) > 0 {
+			if _, err := conn.Write(h); err != nil {
+				conn.Close()
+				return nil, err
+			}
+		}
+		return conn, nil
+	}
 	o, err := startOrigin(run)
 	if err != nil {
 		run.setFatal(err.Error())
@@ -561,7 +579,7 @@ func runProxyMode(run *xferRun) {
 		for i := 0; i < c.Conns; i++ {
 			i := i
 			goSafe(func() {
-				conn, err := net.DialTimeout("tcp", paddr, 5*time.Second)
+				conn, err := dialProxy(context.Background())
 				if err != nil {
 					run.setFatal(err.Error())
 					return
@@ -624,14 +642,15 @@ func runProxyMode(run *xferRun) {
 	default: // proxy-http
 		pu, _ := url.Parse("http://" + paddr)
 		newClient := func() *http.Client {
-			return &http.Client{
-				Timeout: maxDur(c),
-				Transport: &http.Transport{
-					Proxy:              http.ProxyURL(pu),
-					DisableKeepAlives:  true,
-					DisableCompression: true,
-				},
+			tr := &http.Transport{
+				Proxy:              http.ProxyURL(pu),
+				DisableKeepAlives:  true,
+				DisableCompression: true,
 			}
+			if c.ProxyProto != "" {
+				tr.DialContext = func(ctx context.Context, _, _ string) (net.Conn, error) { return dialProxy(ctx) }
+			}
+			return &http.Client{Timeout: maxDur(c), Transport: tr}
 		}
 		for i := 0; i < c.Conns; i++ {
 			i := i
@@ -736,6 +755,13 @@ func evalDir(ctx *core.Ctx, run *xferRun, d *dirState) {
 	sort.Slice(evs, func(i, j int) bool { return evs[i].t < evs[j].t })
 	dur := time.Duration(d.last.Load())
 	moved := d.total // bytes observed (a timed case is cut before its payload is exhausted)
+	if c.Mode == "stack" {
+		// (downloads are observed as raw bytes below TLS: a little more than the payload)
+		moved = 0
+		for _, e := range evs {
+			moved += int64(e.n)
+		}
+	}
 	if c.timed() {
 		moved = 0
 		for _, e := range evs {
@@ -806,8 +832,13 @@ func evalDir(ctx *core.Ctx, run *xferRun, d *dirState) {
 	if minDur < 0 {
 		minDur = 0
 	}
-	noteMeasurement(ctx, c.timed(), c.CloseAtMs > 0, fmt.Sprintf("%s %s read-limit=%d write-limit=%d conns=%d call≤%d%s: %d bytes in %v (bound: ≥ %v; closest to the bound: %d bytes below)",
-		c.Mode, d.name, c.ReadLimit, c.WriteLimit, c.Conns, w, timedNote(c)+run.lifeNote(), moved, dur.Round(time.Millisecond), minDur.Round(time.Millisecond), margin))
+	mline := fmt.Sprintf("%s %s read-limit=%d write-limit=%d conns=%d call≤%d%s: %d bytes in %v (bound: ≥ %v; closest to the bound: %d bytes below)",
+		c.Mode, d.name, c.ReadLimit, c.WriteLimit, c.Conns, w, timedNote(c)+run.lifeNote(), moved, dur.Round(time.Millisecond), minDur.Round(time.Millisecond), margin)
+	if c.Mode == "stack" || c.ProxyProto != "" {
+		noteStackMeasurement(ctx, "["+stackName(c)+"] "+mline)
+	} else {
+		noteMeasurement(ctx, c.timed(), c.CloseAtMs > 0, mline)
+	}
 	// the same clause decided by the model on the whole transfer
 	ans := ctx.Model.MustAsk("C20", "holds", strconv.FormatInt(d.limit, 10), strconv.FormatInt(d.burst, 10), strconv.FormatInt(k, 10),
 		strconv.FormatInt(w, 10), strconv.FormatInt(max64(moved-eps, 0), 10), "0", strconv.FormatInt(int64(dur)+jitterNs(int64(dur)), 10))
@@ -851,7 +882,18 @@ var (
 	meas      []string
 	measTimed []string
 	measLife  []string
+	measStack []string
 )
+
+// noteStackMeasurement keeps a few measured transfers of the stacking cases for the evidence file.
+func noteStackMeasurement(ctx *core.Ctx, s string) {
+	measMu.Lock()
+	defer measMu.Unlock()
+	if len(measStack) < 16 {
+		measStack = append(measStack, s)
+		ctx.Extra("throttled_transfers_through_forwarder_listener_stackings_measured", append([]string(nil), measStack...))
+	}
+}
 
 // noteMeasurement keeps a few measured transfers for the evidence file.
 func noteMeasurement(ctx *core.Ctx, timed, lifecycle bool, s string) {
@@ -961,6 +1003,12 @@ func kwOf(c xferCase) (k, w int) {
 	switch c.Mode {
 	case "listener":
 		return c.Conns, c.Chunk
+	case "stack":
+		// under TLS the calls that reach the limiter are crypto/tls's, not the harness's
+		if c.TLS && c.Chunk < stackTLSCall {
+			return c.Conns, stackTLSCall
+		}
+		return c.Conns, c.Chunk
 	case "proxy-connect":
 		return c.Conns, proxyCallBound
 	default: // proxy-http: downloads and uploads use separate connections, and both kinds call in both directions (heads)
@@ -1003,17 +1051,36 @@ func checkXfer(ctx *core.Ctx, c xferCase) {
 			core.Fatalf("C20: malformed timed xfer case %+v", c)
 		}
 	}
+	if (c.ProxyProto != "" && c.ProxyProto != "v1" && c.ProxyProto != "v2") || (c.Mode == "listener" && c.ProxyProto != "") ||
+		(c.Mode != "stack" && (c.TLS || c.Track)) || (c.Mode == "stack" && (c.timed() || c.CloseAtMs > 0)) {
+		core.Fatalf("C20: malformed stacking of an xfer case %+v", c)
+	}
 	run := &xferRun{c: c}
 	run.k, run.w = kwOf(c)
+	downLimit, upLimit := c.ReadLimit, c.WriteLimit
+	if c.Mode == "stack" || c.ProxyProto != "" {
+		// the limiters a connection of this stacking meters its bytes with: the model's answer for the product's stack
+		// (the full proxy builds its listener with forwarder.Listener from the same ListenerConfig)
+		layers, rx, tx := stackLimiters(ctx, c)
+		ctx.Count("xfer/" + c.Mode + "/model/layers=" + layers)
+		downLimit, upLimit = tx[0], rx[0]
+		for _, l := range [][2]int64{rx, tx} {
+			if l[0] > 0 && l[1] != modelBurst(ctx, l[0]) {
+				core.Fatalf("C20: model stackwiring burst %d for rate %d", l[1], l[0])
+			}
+		}
+	}
 	if !c.NoDown {
-		run.down = planDir(ctx, "down", c.ReadLimit, c.WriteLimit, c, c.DownBytes, c.Conns)
+		run.down = planDir(ctx, "down", downLimit, upLimit, c, c.DownBytes, c.Conns)
 	}
 	if !c.NoUp {
-		run.up = planDir(ctx, "up", c.WriteLimit, c.ReadLimit, c, c.UpBytes, c.Conns)
+		run.up = planDir(ctx, "up", upLimit, downLimit, c, c.UpBytes, c.Conns)
 	}
 	switch c.Mode {
 	case "listener":
 		runListenerMode(run)
+	case "stack":
+		runStackMode(run)
 	case "proxy-connect", "proxy-http":
 		runProxyMode(run)
 	default:
@@ -1025,6 +1092,11 @@ func checkXfer(ctx *core.Ctx, c xferCase) {
 	ctx.Count(fmt.Sprintf("xfer/conns=%d", c.Conns))
 	if c.Mode == "listener" {
 		ctx.Count(fmt.Sprintf("xfer/chunk=%dKiB", c.Chunk/kib))
+	}
+	if c.Mode == "stack" {
+		ctx.Count("xfer/stack/" + stackName(c))
+	} else if c.ProxyProto != "" {
+		ctx.Count("xfer/" + c.Mode + "/proxy-protocol-listener/" + stackName(c))
 	}
 	if c.CloseAtMs > 0 {
 		if c.Mode == "listener" {
@@ -1047,6 +1119,10 @@ func checkXfer(ctx *core.Ctx, c xferCase) {
 		// implementation's doing only if construction failed
 		if strings.HasPrefix(run.fatal, "NewHTTPProxy") || strings.Contains(run.fatal, "through the proxy") {
 			ctx.Crash("a proxy with bandwidth limits serves requests", "", c, run.fatal)
+			return
+		}
+		if strings.HasPrefix(run.fatal, "forwarder.Listener") {
+			ctx.Crash("a listener with bandwidth limits starts, accepts and (with TLS) completes the handshake, in every stacking", "", c, run.fatal)
 			return
 		}
 		core.Fatalf("C20: transfer rig: %s", run.fatal)
@@ -1073,6 +1149,9 @@ func jsonKey(c xferCase) (string, error) {
 	}
 	if c.CloseAtMs > 0 {
 		key += fmt.Sprintf("|close=%d", c.CloseAtMs)
+	}
+	if c.ProxyProto != "" || c.TLS || c.Track {
+		key += fmt.Sprintf("|pp=%s|tls=%v|track=%v", c.ProxyProto, c.TLS, c.Track)
 	}
 	return key, nil
 }
